@@ -277,7 +277,7 @@ func (a *thing) f(r *resp) time.Duration {
 	}
 
 	return a.n
-}`, "loops are not supported"},
+}`, "are not supported"},
 		"unknown call": {`
 func (a *thing) f(r *resp) time.Duration { return time.Duration(r.Other()) * time.Second }`, "not understood"},
 		"unscaled duration": {`
